@@ -26,3 +26,7 @@ claim("C19",
  "Object invariant of Client (at most one launch per client, address stable once set, cached protocol client stable) assumed at every lock acquisition and proved at every release in every method; rely/guarantee clauses make it hold under any interleaving; Start/Client/Kill/Protocol/ReattachConfig/ID/Exited contracts discharged.",
  "Known finding D12: with a RunnerFunc a Start after a failed Start launches again (region recorded in known_findings.json; outside that region the invariant is proved). Immutability of config fields is checked by an SSA scan of the whole module.",
  "DESIGN.md section 7 C19")
+claim("C02",
+ "protocolVersion returns max(S∩H) when the sets intersect, else min(S), else the legacy values, with the plugin set registered under the returned version (S = served versions after legacy folding, H = successfully parsed entries of PLUGIN_PROTOCOL_VERSIONS), proved with loop invariants over the unspecified map iteration order; the client accepts exactly offered versions (checkProtoVersion) and adopts the set registered under the announced one.",
+ "sort.Sort(sort.Reverse(sort.IntSlice)) is specified as an in-place non-increasing permutation (assumed); strings.Split/strconv.Atoi assumed; run-time use of the negotiated set by net/rpc or gRPC is not decided.",
+ "DESIGN.md section 7 C02")
